@@ -308,7 +308,7 @@ func RunCheck(cfg CheckConfig) int {
 		if prop == "C15" {
 			sites = g.ScanDet()
 		} else {
-			sites = g.ScanGlobalWrites()
+			sites = append(g.ScanGlobalWrites(), g.ScanNodeStores()...)
 			prefix = "own."
 		}
 		type key struct{ fn, kind string }
